@@ -44,7 +44,12 @@ def _family(tier, seed):
                                sample("b2", 3, normfactor("nb"), shapefactor("sf"))),
                        channel("CR", sample("b1", 1, normfactor("nb")))])
     m2["tag"] = "mergeable2"
-    return fam + [m, m2]
+    # merging when one of the two samples has no MC uncertainty in a bin where it has a yield
+    m3 = shapes.model([channel("SR", sample("sig", 2, normfactor()),
+                               sample("b1", 2, normsys("xs"), staterror("st", 2, zero=(0,))),
+                               sample("b2", 2, normsys("xs"), staterror("st", 2)))])
+    m3["tag"] = "mergeable-zero-unc"
+    return fam + [m, m2, m3]
 
 
 REWRITES = ["R1", "R2", "R3a", "R3b", "R4h", "R4n", "R5", "R5s", "R6", "R7"]
